@@ -120,9 +120,10 @@ def run(m, rep, tier):
     adapter = None
     if clr_f is not None:
         pclr = m.pfn('cstl_bintree_clear')
-        for c in pclr.all_insts():
-            if c.op == 'call' and w is not None and c.callee == w.name and isinstance(c.o[1], str) and c.o[1].startswith('@'):
-                adapter = m.ifn(c.o[1][1:])
+        for st in (treewalk.walker_calls(m, pclr, w) if w is not None else []):
+            kind, *val = st.args[1]
+            if kind == 'v' and isinstance(val[0], str) and val[0].startswith('@'):
+                adapter = m.ifn(val[0][1:])
     if adapter is None:
         k2.undecided('tree-clear-adapter', 'the visit adapter passed by cstl_bintree_clear to the walker was not found')
     else:
@@ -298,8 +299,43 @@ def check_map_adapter(m, k1, k2):
         k1.violation(site, '; '.join(sorted(set(bad))[:3]), floc(m, f), {})
     else:
         k1.ok(site, 'callback sees a detached iterator; node freed afterwards on every path; not touched in between', floc(m, f))
-    if len(frees) == 1 and len(calls) <= 1:
-        k2.ok(site, 'one callback site, one free')
+    # path-sensitive: the callback runs exactly once per node unless the caller passed none
+    skipped = []
+    if len(calls) == 1:
+        cv = calls[0].x.get('cv')
+        cvi = f.get(cv) if isinstance(cv, str) else None
+        same = set()
+        if cvi is not None and cvi.op == 'load':
+            key = resolve_addr(f, cvi.o[0])
+            for ld in f.all_insts():
+                if ld.op == 'load':
+                    a2 = resolve_addr(f, ld.o[0])
+                    if a2.fsteps and a2.fsteps == key.fsteps and strip_bitcasts(f, a2.root) == strip_bitcasts(f, key.root):
+                        same.add(ld.ref)
+
+        def transfer(ins, n, ps):
+            if ins.op == 'call' and ins.x.get('noreturn'):
+                return None
+            if ins is calls[0]:
+                return min(n + 1, 2)
+            return n
+        try:
+            res = typestate.run(f, 0, transfer, limit=20000)
+            for r, ps in res.exits:
+                st = [ps.knows(('ne', _k(x), 'null')) for x in same]
+                nonnull = any(x is True for x in st)
+                isnull = any(x is False for x in st)
+                if ps.auto == 0 and not isnull:
+                    skipped.append('a path to the return at %s frees the node without handing the entry to the caller\'s callback although a callback '
+                                   'was supplied (the callback is skipped on a condition other than callback == NULL)' % r.loc())
+                if ps.auto > 1:
+                    skipped.append('the callback can run %d times for one node' % ps.auto)
+        except typestate.Limit:
+            pass
+    if skipped:
+        k2.violation(site, '; '.join(sorted(set(skipped))[:2]), floc(m, f), {})
+    elif len(frees) == 1 and len(calls) <= 1:
+        k2.ok(site, 'one callback site, one free; the callback runs on every path on which one was supplied')
     else:
         k2.violation(site, '%d callback site(s) and %d free(s) per node' % (len(calls), len(frees)), floc(m, f), {})
 
@@ -310,32 +346,60 @@ def check_restored(m, k3):
     if f is None:
         k3.undecided('cstl_bintree_clear', 'not in the model')
     else:
-        pv = Prover(f)
         bad = []
-        for r in f.returns():
-            facts = pv.facts_at(r)
-            empty = any(op == 'eq' and y == 'null' and _is_field_load(f, x, 'cstl_bintree', 'root') for (op, x, y) in facts)
-            st_root = [s for s in f.all_insts() if s.op == 'store' and const_int(s.o[0]) == 0 and resolve_addr(f, s.o[1]).fsteps[-1:] == (('cstl_bintree', 'root'),) and f.dominates(s, r)]
-            st_size = [s for s in f.all_insts() if s.op == 'store' and const_int(s.o[0]) == 0 and resolve_addr(f, s.o[1]).fsteps[-1:] == (('cstl_bintree', 'size'),) and f.dominates(s, r)]
-            if empty or (st_root and st_size):
-                continue
-            # a join of the two: decide per incoming edge
-            ok = True
-            for p in r.block.pred:
-                fe = FactCache(f).edge_facts(p, r.block)
-                e2 = any(op == 'eq' and y == 'null' and _is_field_load(f, x, 'cstl_bintree', 'root') for (op, x, y) in fe)
-                s2 = [s for s in f.all_insts() if s.op == 'store' and const_int(s.o[0]) == 0 and resolve_addr(f, s.o[1]).fsteps[-1:] == (('cstl_bintree', 'root'),)
-                      and (f.dominates_block(s.block, p))]
-                z2 = [s for s in f.all_insts() if s.op == 'store' and const_int(s.o[0]) == 0 and resolve_addr(f, s.o[1]).fsteps[-1:] == (('cstl_bintree', 'size'),)
-                      and (f.dominates_block(s.block, p))]
-                if not (e2 or (s2 and z2)):
-                    ok = False
-            if not ok or not r.block.pred:
-                bad.append('a path to the return at %s neither finds the tree empty nor resets root := NULL and size := 0' % r.loc())
-        if bad:
-            k3.violation('cstl_bintree_clear', '; '.join(bad), floc(m, f), {})
+        # path-sensitive: per path to a return, (root := NULL seen, size := 0 seen); knowledge is kept about the
+        # tree's own fields and the flags merging them (clang's cleanup-destination phi included)
+        rel = set()
+        changed = True
+        while changed:
+            changed = False
+            for i in f.all_insts():
+                if i.ref in rel:
+                    continue
+                add = False
+                if i.op == 'load':
+                    a = resolve_addr(f, i.o[0])
+                    add = a.root == '$0' and a.fsteps[-1:] and a.fsteps[-1][0] == 'cstl_bintree'
+                elif i.op in ('bitcast', 'zext', 'trunc'):
+                    add = i.o[0] in rel
+                elif i.op == 'phi':
+                    add = all(o in rel or const_int(o) is not None or o in ('null', 'undef', 'true', 'false') for o in i.o)
+                elif i.op == 'icmp':
+                    add = any(o in rel for o in i.o)
+                if add:
+                    rel.add(i.ref)
+                    changed = True
+
+        def transfer(ins, st, ps):
+            if ins.op == 'store':
+                fs = resolve_addr(f, ins.o[1])
+                if fs.root == '$0' and fs.fsteps[-1:] == (('cstl_bintree', 'root'),):
+                    z = ins.o[0] == 'null' or const_int(ins.o[0]) == 0
+                    return (z, st[1], st[2] or not z)
+                if fs.root == '$0' and fs.fsteps[-1:] == (('cstl_bintree', 'size'),):
+                    return (st[0], const_int(ins.o[0]) == 0, st[2] or const_int(ins.o[0]) != 0)
+            return st
+        try:
+            res = typestate.run(f, (False, False, False), transfer, track=lambda r: r in rel, limit=100000)
+        except typestate.Limit as e:
+            k3.undecided('cstl_bintree_clear', str(e), floc(m, f))
+            res = None
+        if res is not None and not res.exits:
+            k3.undecided('cstl_bintree_clear', 'no return reached', floc(m, f))
+            res = None
+        for r, ps in (res.exits if res is not None else []):
+            empty = any(op == 'eq' and y == 'null' and _is_field_load(f, x, 'cstl_bintree', 'root') for (op, x, y) in ps.known)
+            if not ((empty and not ps.auto[2]) or ps.auto[:2] == (True, True)):
+                what = 'neither finds the tree empty nor resets root := NULL and size := 0'
+                if ps.auto[0] != ps.auto[1]:
+                    what = 'resets only %s' % ('the root (size keeps counting the elements handed over)' if ps.auto[0] else 'the size (root still points at handed-over nodes)')
+                bad.append('a path to the return at %s %s' % (r.loc(), what))
+        if res is None:
+            pass
+        elif bad:
+            k3.violation('cstl_bintree_clear', '; '.join(sorted(set(bad))[:3]), floc(m, f), {})
         else:
-            k3.ok('cstl_bintree_clear', 'every return is under root == NULL or after root := NULL, size := 0', floc(m, f))
+            k3.ok('cstl_bintree_clear', 'every return is under root == NULL or after root := NULL, size := 0 (%d exit state(s))' % len(res.exits), floc(m, f))
     for wrapper in ('cstl_rbtree_clear', 'cstl_heap_clear', 'cstl_map_clear'):
         pf = m.pfn(wrapper)
         if pf is None:
